@@ -50,5 +50,13 @@ InverseMaps == Complete => \A st \in ReplaceSteps \cup AroundSteps :
   r.ok => LET inv == InvertStep(st, toks, RA) IN
           \A p \in 0..Len(r.doc) : \A a \in {-1, 1} :
              MapPos(GetMap(inv), p, a) = MapPos(InvertMap(GetMap(st)), p, a)
+(* the structure flag as implemented agrees with "only closes, then opens" except when the range starts
+   in the middle of a text node (see PMStep!StructureOnlyImpl) *)
+StructureFlagLaw == Complete => \A r \in Rng :
+  ~MidText(toks, r[1]) => (StructureOnlyImpl(toks, r[1], r[2]) <=> StructureOnly(toks, r[1], r[2]))
+(* the join rule never refuses to put back what was cut, and cutting at a deeper range end joins equal types *)
+Reinsert == Complete => \A r \in Rng :
+  LET r2 == Apply([type |-> "replace", from |-> r[1], to |-> r[2], slice |-> Cut(toks, r[1], r[2]), structure |-> FALSE], toks, RA)
+  IN r2.ok /\ r2.doc = toks
 (* non-vacuity: some step of every kind applies somewhere (checked by counting in the harness) *)
 =============================================================================
